@@ -616,3 +616,15 @@ func GoDaemon(name string, f func()) {
 	}
 	s.spawn(name, f, true)
 }
+
+// Now is a stamp for "this instant" of the running thread: right after its
+// last visible operation.
+//
+//go:norace
+func Now() int {
+	s := cur
+	if s == nil {
+		return 0
+	}
+	return s.cur.lastOp + 1
+}
